@@ -10,6 +10,8 @@
 //!   v = FontInfo::validate()            ok | err:<Kind> | panic | na
 //!   s = Font::save over an existing dir ok | refused:<Kind> | late:<kept|wiped> | other | panic | na
 //!   l = Font::load of a generated tree  loaded:<same|diff|nomem> | parse | invalid:<Kind> | other | panic
+//!   u2 = Font::load of a format-2 tree holding the same attributes (only date / selection / class / lists)   loaded | parse | invalid:<Kind> | other | panic | na
+//!   u1 = Font::load of a format-1 tree whose lib carries the lists as org.robofab.postScriptHintData          (same classes)
 use crate::common::*;
 use crate::rng::Rng;
 use norad::fontinfo::*;
@@ -172,6 +174,50 @@ impl Raw {
             }
         }
         r
+    }
+
+    /// only attributes that exist in format 2 as well (date, selection bits, family class, the six lists)
+    pub fn v2_expressible(&self) -> bool {
+        self.g.is_none() && self.gl.is_none() && self.we.is_none() && self.wn.iter().all(|x| x.is_none())
+            && self.pan.is_none() && self.wcl.is_none() && self.cs.is_none() && self.sm.is_none()
+    }
+
+    /// only the six lists: they can travel as robofab hint data in a format-1 lib
+    pub fn hint_expressible(&self) -> bool {
+        self.v2_expressible() && self.d.is_none() && self.sel.is_none() && self.fc.is_none()
+    }
+
+    /// lib.plist of a format-1 font carrying the lists as `org.robofab.postScriptHintData`
+    pub fn hint_lib(&self) -> String {
+        let mut s = String::from(PLIST_HEAD);
+        s.push_str("<dict><key>org.robofab.postScriptHintData</key><dict>\n");
+        let names = ["blueValues", "otherBlues", "familyBlues", "familyOtherBlues", "hStems", "vStems"];
+        for (i, l) in self.lens.iter().enumerate() {
+            if let Some(n) = l {
+                s.push_str(&format!("<key>{}</key><array>", names[i]));
+                if i < 4 {
+                    // zones are lists of lists: pairs, a trailing single element when the length is odd,
+                    // and for lengths divisible by 3 one row of three (rows need not be pairs)
+                    let mut k = 0;
+                    while k < *n {
+                        let w = if *n % 3 == 0 && *n > 3 && k == 0 { 3 } else { 2 }.min(*n - k);
+                        s.push_str("<array>");
+                        for j in 0..w {
+                            s.push_str(&format!("<integer>{}</integer>", (k + j) * 10));
+                        }
+                        s.push_str("</array>");
+                        k += w;
+                    }
+                } else {
+                    for k in 0..*n {
+                        s.push_str(&format!("<integer>{}</integer>", 50 + k));
+                    }
+                }
+                s.push_str("</array>\n");
+            }
+        }
+        s.push_str("</dict></dict>\n</plist>\n");
+        s
     }
 
     /// the in-memory value, if every field fits norad's types
@@ -520,6 +566,8 @@ pub fn base_tree(dir: &Path, format: u32) {
 pub struct Ctx {
     load_dir: PathBuf,
     save_dir: PathBuf,
+    v2_dir: PathBuf,
+    v1_dir: PathBuf,
 }
 
 impl Ctx {
@@ -527,7 +575,12 @@ impl Ctx {
         let root = scratch_root().join("c13");
         let load_dir = root.join("load.ufo");
         base_tree(&load_dir, 3);
-        Ctx { load_dir, save_dir: root.join("save.ufo") }
+        let v2_dir = root.join("v2.ufo");
+        base_tree(&v2_dir, 2);
+        let v1_dir = root.join("v1.ufo");
+        base_tree(&v1_dir, 1);
+        std::fs::write(v1_dir.join("fontinfo.plist"), format!("{}<dict></dict></plist>\n", PLIST_HEAD)).unwrap();
+        Ctx { load_dir, save_dir: root.join("save.ufo"), v2_dir, v1_dir }
     }
 }
 
@@ -608,7 +661,35 @@ pub fn observe(ctx: &Ctx, raw: &Raw) -> String {
             _ => "other".into(),
         },
     };
-    format!("v={} s={} l={}", v, s, l)
+    let classify = |r: Result<Result<Font, norad::error::FontLoadError>, String>| -> String {
+        match r {
+            Err(_) => "panic".to_string(),
+            Ok(Ok(_)) => "loaded".to_string(),
+            Ok(Err(e)) => match e {
+                norad::error::FontLoadError::FontInfo(b) => match b {
+                    norad::error::FontInfoLoadError::ParsePlist(_) => "parse".into(),
+                    norad::error::FontInfoLoadError::FontInfoUpconversion(k) => format!("invalid:{}", kind(&k)),
+                    _ => "other".into(),
+                },
+                norad::error::FontLoadError::FontInfoV1Upconversion(k) => format!("invalid:{}", kind(&k)),
+                norad::error::FontLoadError::ParsePlist { .. } => "parse".into(),
+                _ => "other".into(),
+            },
+        }
+    };
+    let u2 = if raw.v2_expressible() {
+        std::fs::write(ctx.v2_dir.join("fontinfo.plist"), raw.plist()).unwrap();
+        classify(guarded(|| Font::load(&ctx.v2_dir)))
+    } else {
+        "na".to_string()
+    };
+    let u1 = if raw.hint_expressible() {
+        std::fs::write(ctx.v1_dir.join("lib.plist"), raw.hint_lib()).unwrap();
+        classify(guarded(|| Font::load(&ctx.v1_dir)))
+    } else {
+        "na".to_string()
+    };
+    format!("v={} s={} l={} u2={} u1={}", v, s, l, u2, u1)
 }
 
 fn emit(out: &mut dyn Write, ctx: &Ctx, raw: &Raw) {
@@ -901,6 +982,45 @@ pub fn gen(tier: &str, seed: u64, out: &mut dyn Write) {
     }
     for s in ["regular", "italic", "bold", "bold italic", "Regular", "bold  italic", "", "bolditalic", "italic bold", " regular"] {
         emit(out, &ctx, &Raw { sm: Some(s.to_string()), ..Default::default() });
+    }
+
+    // --- combinations of the attributes that also exist in formats 1 / 2 (reach the upconversion paths)
+    let n_legacy = if thorough { 4000 } else { 500 };
+    let maxes = [14usize, 10, 14, 10, 12, 12];
+    for k in 0..n_legacy {
+        let mut r = Raw::default();
+        let lists_only = k % 2 == 0;
+        let mut one_bad = rng.chance(1, 2);
+        for i in 0..6 {
+            if rng.chance(1, 2) {
+                let n = if one_bad && rng.chance(1, 3) {
+                    one_bad = false;
+                    if i < 4 { *rng.pick(&[maxes[i] + 1, maxes[i] + 2, maxes[i] - 1, 1, 3, 7]) } else { maxes[i] + 1 + rng.below(2) }
+                } else if i < 4 {
+                    2 * rng.below(maxes[i] / 2 + 1)
+                } else {
+                    rng.below(maxes[i] + 1)
+                };
+                r.lens[i] = Some(n);
+            }
+        }
+        if !lists_only {
+            if rng.chance(1, 2) {
+                r.d = Some(if one_bad && rng.chance(1, 3) { one_bad = false; rng.pick(&dates).clone() } else { GOOD_DATE.to_string() });
+            }
+            if rng.chance(1, 2) {
+                let mut v: Vec<i64> = vec![1, 2, 7];
+                if one_bad && rng.chance(1, 3) {
+                    one_bad = false;
+                    v.push(*rng.pick(&[0i64, 5, 6]));
+                }
+                r.sel = Some(v);
+            }
+            if rng.chance(1, 2) {
+                r.fc = Some(if one_bad && rng.chance(1, 2) { vec![15, 3] } else { vec![rng.range(0, 14), rng.range(0, 15)] });
+            }
+        }
+        emit(out, &ctx, &r);
     }
 
     // --- combinations: several attributes, each valid or at a violating boundary
